@@ -78,6 +78,8 @@ pub struct Prov<'u> {
     pub ctl: Option<Rc<Controller>>,
     pub mask: u8,
     pub sort_cb: SortCallback,
+    /// `filter_candidates` returns its answer in reverse listing order (the trait does not promise any order)
+    pub filter_reversed: bool,
     pub hint_override: Option<Hint>,
     /// per-package override: bit n set = package n answers All, clear = None
     pub hint_mask: Option<u64>,
@@ -95,6 +97,7 @@ impl<'u> Prov<'u> {
             ctl: None,
             mask: 0,
             sort_cb: SortCallback::None,
+            filter_reversed: false,
             hint_override: None,
             hint_mask: None,
             logging: true,
@@ -179,11 +182,14 @@ impl DependencyProvider for Prov<'_> {
     ) -> Vec<SolvableId> {
         self.ev(Ev::Filter(version_set.0, inverse));
         let vs = &self.u.vsets[version_set.0 as usize];
-        let out = candidates
+        let mut out: Vec<SolvableId> = candidates
             .iter()
             .copied()
             .filter(|c| vs.members.contains(&c.0) != inverse)
             .collect();
+        if self.filter_reversed {
+            out.reverse();
+        }
         self.gate(K_FILTER, version_set.0 * 2 + inverse as u32).await;
         out
     }
